@@ -15,8 +15,8 @@ VARIABLE c
 vars == << c >>
 
 (* ------------------------------ type universe -------------------------------------- *)
-LeavesQuick == { UintT(8), UintT(64), UintT(256), IntT(8), IntT(256), BoolT, AddressT, BytesNT(1), BytesNT(32), BytesT, StringT }
-LeavesMore  == { UintT(16), UintT(32), UintT(24), UintT(248), IntT(16), IntT(32), IntT(64), IntT(40), BytesNT(4), BytesNT(31) }
+LeavesQuick == { UintT(8), UintT(64), UintT(256), UintT(24), IntT(8), IntT(40), IntT(256), BoolT, AddressT, BytesNT(1), BytesNT(32), BytesT, StringT }
+LeavesMore  == { UintT(16), UintT(32), UintT(248), IntT(16), IntT(32), IntT(64), IntT(248), BytesNT(4), BytesNT(31) }
 Leaves == IF Level = "quick" THEN LeavesQuick ELSE LeavesQuick \cup LeavesMore
 Nest0  == IF Level = "quick" THEN { UintT(256), IntT(8), BytesT } ELSE { UintT(256), IntT(8), BytesT, AddressT, StringT }
 
